@@ -69,8 +69,10 @@ pub fn relativize_path_in_diff_stat_line(
         _ => Cow::from(relative_path),
     };
     let suffix = caps.get(2).unwrap().as_str();
+    // (an enormous --diff-stat-align-width must not be turned into that many blanks)
     let pad_width = config
         .diff_stat_align_width
+        .min(u16::MAX as usize)
         .saturating_sub(relative_path.len());
     let padding = " ".repeat(pad_width);
     Some(format!(" {formatted_path}{padding}{suffix}"))
